@@ -6,6 +6,7 @@ from checks import langcommon as lc
 from checks import objgen as og
 from checks.c09 import same
 from checks import c16
+from checks import gengen
 
 TRUSTED_BASE = [
     "Coq 8.16.1 kernel (coqc); vm_compute only in the Examples",
@@ -72,6 +73,14 @@ def run(chk):
             var_src.append(lg.prog_src(fns, classes, order=p))
             meta.append(p)
             opts.append(opt)
+    # generic templates next to ordinary classes (a type parameter may be spelled like one of them)
+    for i in range(n // 4):
+        parts, fns, classes = gengen.gen(rng, chunks=True)
+        for p in perms(rng, len(parts), 3 if quick else 5):
+            base_src.append("\n".join(parts))
+            var_src.append("\n".join(parts[j] for j in p))
+            meta.append(p)
+            opts.append("")
     ra = lc.run_impl(base_src, opts=opts)
     rb = lc.run_impl(var_src, opts=opts)
     ndiff = 0
